@@ -195,11 +195,13 @@ pub fn fmt_num(v: f64, int_spelling: bool) -> String {
 pub struct Printer {
     pub out: String,
     indent: usize,
+    /// when set, expressions are wrapped in redundant parentheses pseudo-randomly (C16)
+    pub paren_state: Option<u64>,
 }
 
 impl Printer {
     pub fn new() -> Self {
-        Printer { out: String::new(), indent: 0 }
+        Printer { out: String::new(), indent: 0, paren_state: None }
     }
     fn nl(&mut self) {
         self.out.push('\n');
@@ -271,6 +273,22 @@ impl Printer {
         }
     }
     pub fn expr(&mut self, e: &E) {
+        let wrap = match self.paren_state.as_mut() {
+            Some(st) => {
+                *st = st.wrapping_mul(6364136223846793005).wrapping_add(1442695040888963407);
+                (*st >> 33) % 5 == 0
+            }
+            None => false,
+        };
+        if wrap {
+            self.out.push('(');
+            self.expr_inner(e);
+            self.out.push(')');
+        } else {
+            self.expr_inner(e);
+        }
+    }
+    fn expr_inner(&mut self, e: &E) {
         match e {
             E::Num(v, i) => self.out.push_str(&fmt_num(*v, *i)),
             E::Var(v) => self.out.push_str(v),
@@ -451,7 +469,11 @@ impl Printer {
 
 impl Program {
     pub fn print(&self) -> String {
+        self.print_with(None)
+    }
+    pub fn print_with(&self, paren_state: Option<u64>) -> String {
         let mut p = Printer::new();
+        p.paren_state = paren_state;
         for (n, _t, e) in &self.pre_globals {
             p.out.push_str("let ");
             p.out.push_str(n);
